@@ -42,6 +42,10 @@ func ResolveRef(root interface{}, ref *Ref) (*Schema, error) {
 	case Schema:
 		return &sch, nil
 	case *Schema:
+		if sch == nil {
+			// a member the typed document knows but does not hold
+			return nil, fmt.Errorf("%s designates nothing: %w", ref.String(), ErrUnknownTypeForReference)
+		}
 		return sch, nil
 	case map[string]interface{}:
 		newSch := new(Schema)
